@@ -458,7 +458,7 @@ func (w *World) RunProbes(t int, root string, which map[string]bool, rng *rand.R
 		n := int(h.Arr.Count())
 		p := emptyProbe()
 		var yielded []atree.Value
-		sizes := []int{12, 60, int(w.Th.MaxInlineArrayElt), int(w.Th.MaxInlineArrayElt) + 13}
+		sizes := []int{12, 60, encodableSize(int(w.Th.MaxInlineArrayElt)), encodableSize(int(w.Th.MaxInlineArrayElt) + 13)}
 		it, err := h.Arr.Iterator()
 		i := 0
 		for err == nil {
